@@ -1198,7 +1198,7 @@ func callsCases(prop, tier string, seed int64) []callsCase {
 			}
 		case "c11":
 			for _, pool := range []bool{false, true} {
-				if pool && !framed(k) {
+				if pool && !framed(k) && k != "ws" {
 					continue
 				}
 				out = append(out, callsCase{Prop: prop, Kind: k, Sc: "service-faults", Pool: pool, Seed: seed},
